@@ -102,6 +102,29 @@ func TestVerifBMCReplay(t *testing.T) {
 		os.WriteFile(path+".out", ob, 0o644)
 	}()
 
+	if len(c.Kind) >= 14 && c.Kind[:14] == "no fatal error" {
+		// lock-discipline violations (unlock of an unlocked mutex, unprotected map access) are fatal errors or data
+		// races whatever the schedule: run the threads freely under the race detector (gates would add
+		// happens-before edges through the controller and hide the race)
+		verifGateOn = false
+		p := newPartitionLocker(&sync.Mutex{})
+		var wg sync.WaitGroup
+		for i, name := range c.Threads {
+			wg.Add(1)
+			go func(fn func(*partitionLocker, string), key string) {
+				defer wg.Done()
+				fn(p, key)
+			}(verifThreadFuncs[name], "k"+strconv.Itoa(c.Keys[i]))
+		}
+		done := make(chan struct{})
+		go func() { wg.Wait(); close(done) }()
+		select {
+		case <-done:
+		case <-time.After(3 * time.Second):
+		}
+		outcome["Msg"] = "threads ran freely under the race detector"
+		return
+	}
 	verifGateCh = make(chan verifGateReq)
 	verifGateOn = true
 	p := newPartitionLocker(&verifGatedLocker{})
